@@ -91,7 +91,7 @@ static _Bool ad_authentic(int k) {
 
 /* ---- transport ---- */
 int ad_getResponse(void *impl, KSI_OctetString **out, size_t *left) {
-	unsigned k = g_ad.n_out; int r;
+	unsigned k = g_ad.get_calls; int r;                 /* item k = what the k-th transport call hands out */
 	__CPROVER_assert(impl == (void *)&g_ad_impl, "the transport is asked with the client's own transport context");
 	if (g_ad.first_fail != KSI_OK) g_ad.used_after_fail = 1;
 	g_ad.get_calls++;
@@ -99,7 +99,7 @@ int ad_getResponse(void *impl, KSI_OctetString **out, size_t *left) {
 	if (r != KSI_OK) return r;
 	if (k < AD_MAXQ && nondet_bool()) {
 		g_ad.it[k].handed_out = 1; g_ad.it[k].os.data = &g_ad.it[k].byte0; g_ad.it[k].os.len = nondet_size(); g_ad.it[k].os.k = (int)k;
-		*out = &g_ad.it[k].os; g_ad.n_out = k + 1;
+		*out = &g_ad.it[k].os; g_ad.n_out++;
 	} else *out = NULL;
 	*left = g_ad.get_calls < AD_MAXQ ? nondet_size() : 0;           /* BOUND: the queue is drained after AD_MAXQ calls */
 	return KSI_OK;
@@ -126,7 +126,7 @@ void KSI_OctetString_free(KSI_OctetString *o) { if (o != NULL) g_ad.it[o->k].os_
 static int ad_parse(KSI_CTX *ctx, const unsigned char *raw, size_t len, void **t) {
 	int k = -1, r; struct ad_item *it;
 	/* the bytes are those of the item most recently handed out */
-	if (g_ad.n_out >= 1 && raw == &g_ad.it[g_ad.n_out - 1].byte0) k = (int)g_ad.n_out - 1;
+	if (g_ad.get_calls >= 1 && g_ad.get_calls <= AD_MAXQ && raw == &g_ad.it[g_ad.get_calls - 1].byte0 && g_ad.it[g_ad.get_calls - 1].handed_out) k = (int)g_ad.get_calls - 1;
 	__CPROVER_assert(k >= 0, "the PDU is parsed from the bytes the transport handed out last");
 	if (k < 0) return ad_fail(KSI_INVALID_ARGUMENT);
 	it = &g_ad.it[k];
@@ -255,6 +255,8 @@ int ad_cb_ctx(KSI_CTX *ctx, KSI_Config *c) { g_ad.cb_ctx = 1; return ad_cb(c); }
 
 /* ctx->asyncHandleRecycle is NULL in the harness; gives the guarded function-pointer calls on it a concrete target */
 int ad_recycle_append(KSI_LIST(KSI_AsyncHandle) *l, KSI_AsyncHandle *h) { __CPROVER_assert(0, "recycle list is absent"); return KSI_INVALID_STATE; }
+size_t ad_recycle_length(KSI_LIST(KSI_AsyncHandle) *l) { __CPROVER_assert(0, "recycle list is absent"); return 0; }
+int ad_recycle_remove(KSI_LIST(KSI_AsyncHandle) *l, size_t pos, KSI_AsyncHandle **h) { __CPROVER_assert(0, "recycle list is absent"); return KSI_INVALID_STATE; }
 
 #define ENV_ASYNCDEL_ASSUMED \
 	"transport c->getResponse: at most 3 calls report left != 0 (bound), each hands out one byte string, nothing, or fails; c->getCredentials: arbitrary status, the key of this client (env/ghost_asyncdel.h)", \
